@@ -892,3 +892,55 @@ Definition user_owned (b : block) : bool := match b with BkDir => true | _ => fa
 Definition uv_block (b : block) : bool :=
   match b with BkDents | BkDent _ => false | _ => true end.
 Definition uv_live (h : heap) : nat := length (filter uv_block (live h)).
+
+(* ================================================================== *)
+(* Part D: size of the thread pool behind the pool route              *)
+(* ================================================================== *)
+(* init_threads (src/threadpool.c:194-207):
+     nthreads = ARRAY_SIZE(default_threads);            -- 4
+     val = getenv("UV_THREADPOOL_SIZE");
+     if (val != NULL) nthreads = atoi(val);              -- int -> unsigned int
+     if (nthreads == 0) nthreads = 1;
+     if (nthreads > MAX_THREADPOOL_SIZE) nthreads = MAX_THREADPOOL_SIZE;   -- 1024
+   atoi is glibc's: (int) strtol(s, NULL, 10) - leading white space, one
+   optional sign, decimal digits, the value saturating at LONG_MIN/LONG_MAX;
+   the conversions long -> int -> unsigned int keep the low 32 bits. *)
+Definition is_space (c : N) : bool :=
+  ((9 <=? c) && (c <=? 13))%N || (c =? 32)%N.
+Definition digit_of (c : N) : option Z :=
+  if ((48 <=? c) && (c <=? 57))%N then Some (Z.of_N c - 48) else None.
+
+Fixpoint skip_spaces (s : list N) : list N :=
+  match s with
+  | c :: r => if is_space c then skip_spaces r else s
+  | [] => []
+  end.
+
+Fixpoint digits_value (s : list N) (acc : Z) : Z :=
+  match s with
+  | c :: r => match digit_of c with
+              | Some d => digits_value r (acc * 10 + d)
+              | None => acc
+              end
+  | [] => acc
+  end.
+
+Definition LONG_MAX : Z := 9223372036854775807.
+Definition sat_long (z : Z) : Z :=
+  if LONG_MAX <? z then LONG_MAX else if z <? - LONG_MAX - 1 then - LONG_MAX - 1 else z.
+
+Definition strtol10 (s : list N) : Z :=
+  match skip_spaces s with
+  | 45%N :: r => sat_long (- digits_value r 0)      (* '-' *)
+  | 43%N :: r => sat_long (digits_value r 0)        (* '+' *)
+  | r => sat_long (digits_value r 0)
+  end.
+
+Definition atoi_unsigned (s : list N) : Z := strtol10 s mod two32.
+
+Definition MAX_THREADPOOL_SIZE : Z := 1024.
+(* [None] = the variable is not set *)
+Definition pool_size (v : option (list N)) : Z :=
+  let n := match v with None => 4 | Some s => atoi_unsigned s end in
+  let n := if n =? 0 then 1 else n in
+  if MAX_THREADPOOL_SIZE <? n then MAX_THREADPOOL_SIZE else n.
